@@ -67,8 +67,12 @@ func storageParticulateTrapping(inflowMass, storageInflow, storageOutflow, stora
 		storageOutflowRate := storageOutflow.Get(idx)
 		storageWorkingVolume := storageOutflowRate*deltaT + storageVolume.Get(idx)
 
-		concentration := storedMass / storageWorkingVolume
-		massOutRate := storageOutflowRate * concentration
+		massOutRate := 0.0
+		if storageWorkingVolume > 0 {
+			// With no water in or leaving the storage nothing is carried out
+			concentration := storedMass / storageWorkingVolume
+			massOutRate = storageOutflowRate * concentration
+		}
 		storedMass = math.Max(storedMass - (massOutRate*deltaT),0.0)
 		outflowLoad.Set(idx, massOutRate)
 	}
